@@ -256,7 +256,10 @@ class BaseDiscretizer(BaseEstimator, TransformerMixin):
             A formatted X
         """
         # for binary/continuous targets
-        if all(len(feature_casting) == 1 for feature_casting in self.features_casting.values()):
+        if all(
+            feature_casting == [feature]
+            for feature, feature_casting in self.features_casting.items()
+        ):
             X.rename(
                 columns={
                     feature: feature_casting[0]
